@@ -29,6 +29,18 @@ macro_rules! obl {
         kani::assert($cond, concat!("OBL:", $name, "|", $props))
     };
 }
+/// A STRUCTURAL obligation: it pins down how a caller uses a callee whose contract is proved
+/// separately (called once, right arguments, nothing written before, delegation). It carries the
+/// modular decomposition, not the property itself: when only structural obligations fail, the
+/// decomposition no longer matches the code and the check is UNDECIDED (exit 2) - whether the
+/// property still holds is then decided by the semantic obligations of the end-to-end harnesses.
+macro_rules! sobl {
+    ($cond:expr, $name:literal, $props:literal) => {
+        kani::assert($cond, concat!("OBL:", $name, "|", $props, "|S"))
+    };
+}
+pub(crate) use sobl;
+
 /// A reachability (non-vacuity) guard: must be SATISFIED in every healthy run.
 macro_rules! cov {
     ($cond:expr, $name:literal) => {
